@@ -13,7 +13,7 @@ use proptest::test_runner::{Config, RngSeed, TestRunner};
 use serde_json::json;
 use std::sync::{Arc, Barrier};
 
-pub const RULE: &str = "generated: a corpus of N requests (valid ones from the completeness generator on both carriers with all options, and defective ones from the C13 catalogue) with their configurations. The OUTCOME of one validation is (Ok | error kind, code, status; returned method, version, URI, headers, body; principal) -- messages are deliberately excluded, divergences in them are only counted. Oracle: outcome digests are equal (i) across 3 repetitions on one thread, (ii) across T in {2,4,8,16} threads released together on a barrier, each validating a different rotation of the corpus concurrently, and 8 threads hammering small groups of similar requests (one form body under ten charset labels, a request and its twins under other options, equally long uploads) for 150 (quick) / 3000 (thorough) rounds, (iii) in freshly spawned processes (fresh hash seeds; launched under differing environments: time zone, locale, RUST_LOG, AWS_* variables, an empty environment) whose 16 threads start COLD, so their first validations race on the lazily initialised global regexes, and (iv) equal to the reference model's verdict where specified. (v) history independence on one thread: a request followed by up to six close relatives (one of 17 ingredients changed -- server region/service/clock/options, secret, token, access key, time, spelling, query, header, body, path, method, requirement; signed anew, or presented with the previous signature), each judged by the reference model; a disagreement that vanishes on a fresh thread is reported as history-dependent. Limit: the thread schedule is the OS's, sampled not enumerated. Non-trivial: a request with >= 3 query parameters or >= 3 signed headers or >= 2 prefix-matching unsigned headers; distinct by request digest.";
+pub const RULE: &str = "generated: a corpus of N requests (valid ones from the completeness generator on both carriers with all options, and defective ones from the C13 catalogue) with their configurations. The OUTCOME of one validation is (Ok | error kind, code, status; returned method, version, URI, headers, body; principal) -- messages are deliberately excluded, divergences in them are only counted. Oracle: outcome digests are equal (i) across 3 repetitions on one thread, (ii) across T in {2,4,8,16} threads released together on a barrier, each validating a different rotation of the corpus concurrently, and 8 threads hammering small groups of similar requests (one form body under ten charset labels, a request and its twins under other options, equally long uploads) for 150 (quick) / 3000 (thorough) rounds, (iii) in freshly spawned processes (fresh hash seeds; launched under differing environments: time zone, locale, RUST_LOG, AWS_* variables, an empty environment) whose 16 threads start COLD, so their first validations race on the lazily initialised global regexes, and (iv) equal to the reference model's verdict where specified. (v) history independence on one thread: a request followed by up to six close relatives (one of 17 ingredients changed -- server region/service/clock/options, secret, token, access key, time, spelling, query, header, body, path, method, requirement; signed anew, or presented with the previous signature), each judged by the reference model; a disagreement that vanishes on a fresh thread is reported as history-dependent. (vi) pairs of different equal-length texts that collide under eleven cheap hash functions (found by birthday search), as path segment, parameter name/value and header value of consecutive requests. Limit: the thread schedule is the OS's, sampled not enumerated. Non-trivial: a request with >= 3 query parameters or >= 3 signed headers or >= 2 prefix-matching unsigned headers; distinct by request digest.";
 
 pub fn subs() -> Vec<Box<dyn AnySub>> {
     vec![Box::new(Sub {
@@ -31,6 +31,24 @@ pub fn subs() -> Vec<Box<dyn AnySub>> {
     // anew or presented with the previous signature, or the very same bytes under another configuration), each
     // judged by the reference model. Whatever an implementation remembers from one validation to the next, it
     // must not change any verdict.
+    // two different texts of equal length that collide under a popular cheap hash (FNV-1a, FNV-1, CRC-32, djb2, sdbm, Java's
+    // 31x+c, Adler-32, byte sum / xor, first+last+length): a memo that recognises its entries by such a hash hands the
+    // second request the first one's result
+    Box::new(EnumSub {
+        name: "weak-hash-twins",
+        exhaustive: false,
+        list: |t| {
+            let per = t.pick(6, 40) as usize;
+            let mut out = Vec::new();
+            for h in 0..WEAK_HASHES.len() {
+                for (a, b) in weak_collisions(h, per) {
+                    out.push(Twins { hash: WEAK_HASHES[h].0.to_string(), a, b });
+                }
+            }
+            out
+        },
+        check: check_weak_twins,
+    }),
     Box::new(Sub {
         name: "siblings-in-sequence",
         quick: 12_000,
@@ -42,6 +60,113 @@ pub fn subs() -> Vec<Box<dyn AnySub>> {
         },
         check: check_siblings,
     })]
+}
+
+#[derive(Clone, Debug, serde::Serialize, serde::Deserialize)]
+pub struct Twins {
+    pub hash: String,
+    pub a: String,
+    pub b: String,
+}
+
+type WeakHash = fn(&[u8]) -> u32;
+pub const WEAK_HASHES: &[(&str, WeakHash)] = &[
+    ("FNV-1a 32", |s| s.iter().fold(0x811c9dc5u32, |h, c| (h ^ *c as u32).wrapping_mul(0x0100_0193))),
+    ("FNV-1 32", |s| s.iter().fold(0x811c9dc5u32, |h, c| h.wrapping_mul(0x0100_0193) ^ *c as u32)),
+    ("CRC-32", |s| {
+        let mut crc = 0xffff_ffffu32;
+        for c in s {
+            crc ^= *c as u32;
+            for _ in 0..8 {
+                crc = if crc & 1 != 0 { (crc >> 1) ^ 0xedb8_8320 } else { crc >> 1 };
+            }
+        }
+        !crc
+    }),
+    ("djb2", |s| s.iter().fold(5381u32, |h, c| h.wrapping_mul(33).wrapping_add(*c as u32))),
+    ("sdbm", |s| s.iter().fold(0u32, |h, c| (*c as u32).wrapping_add(h << 6).wrapping_add(h << 16).wrapping_sub(h))),
+    ("31x+c", |s| s.iter().fold(0u32, |h, c| h.wrapping_mul(31).wrapping_add(*c as u32))),
+    ("Adler-32", |s| {
+        let (mut a, mut b) = (1u32, 0u32);
+        for c in s {
+            a = (a + *c as u32) % 65_521;
+            b = (b + a) % 65_521;
+        }
+        (b << 16) | a
+    }),
+    ("byte sum", |s| s.iter().fold(0u32, |h, c| h.wrapping_add(*c as u32))),
+    ("byte xor", |s| s.iter().fold(0u32, |h, c| h ^ *c as u32)),
+    ("first, last and length", |s| (s.first().copied().unwrap_or(0) as u32) << 16 | (s.last().copied().unwrap_or(0) as u32) << 8 | s.len() as u32 & 0xff),
+    ("FNV-1a 32 folded to 16 bits", |s| {
+        let h = s.iter().fold(0x811c9dc5u32, |h, c| (h ^ *c as u32).wrapping_mul(0x0100_0193));
+        (h >> 16) ^ (h & 0xffff)
+    }),
+];
+
+/// `n` pairs of different equal-length texts over [a-z0-9] with the same hash (birthday search, deterministic).
+pub fn weak_collisions(h: usize, n: usize) -> Vec<(String, String)> {
+    let f = WEAK_HASHES[h].1;
+    let mut out = Vec::new();
+    let mut x: u64 = 0x9e37_79b9_7f4a_7c15 ^ (h as u64) << 32;
+    for len in [8usize, 6, 11, 5] {
+        let mut seen: std::collections::HashMap<u32, String> = std::collections::HashMap::new();
+        for _ in 0..400_000 {
+            let mut t = String::with_capacity(len);
+            for _ in 0..len {
+                x = x.wrapping_mul(6364136223846793005).wrapping_add(1442695040888963407);
+                t.push(b"abcdefghijklmnopqrstuvwxyz0123456789"[(x >> 33) as usize % 36] as char);
+            }
+            let k = f(t.as_bytes());
+            match seen.get(&k) {
+                Some(u) if *u != t => {
+                    out.push((u.clone(), t));
+                    if out.len() >= n {
+                        return out;
+                    }
+                }
+                Some(_) => {}
+                None => {
+                    seen.insert(k, t);
+                }
+            }
+            if out.len() >= (n + 3) / 4 * (1 + [8usize, 6, 11, 5].iter().position(|l| *l == len).unwrap()) {
+                break;
+            }
+        }
+    }
+    out
+}
+
+pub fn check_weak_twins(tw: &Twins, cc: &mut CaseCtx) -> CheckResult {
+    if tw.a == tw.b || tw.a.len() != tw.b.len() {
+        return Err(harness_bug("not a twin pair"));
+    }
+    let mk = |t: &str, s3: bool, query_carrier: bool| -> Option<Case> {
+        let mut p = simple_plan(if query_carrier { crate::model::verify::Carrier::Query } else { crate::model::verify::Carrier::Header });
+        p.logical.segments = vec![B::from("v1"), B::from(t), B::from("x")];
+        p.logical.query = vec![(B::from(t), B::from("1")), (B::from("k"), B::from(t))];
+        p.logical.headers.push(("x-twin".into(), vec![B::from(t)]));
+        p.spec.signed_headers.push("x-twin".into());
+        p.spec.signed_headers.sort();
+        p.cfg.s3 = s3;
+        p.build().ok().map(|b| b.case)
+    };
+    for (s3, qc) in [(false, false), (true, true)] {
+        let (Some(ca), Some(cb)) = (mk(&tw.a, s3, qc), mk(&tw.b, s3, qc)) else { return Ok(()) };
+        for (i, c) in [&ca, &cb, &ca, &cb].iter().enumerate() {
+            let (a, o) = (analyze(c), exec::run(c));
+            check_against_model(&a, &o).map_err(|f| {
+                Failure::new(
+                    &format!("weak-hash-twin:{}", f.sig),
+                    format!("{} [request {} of the sequence a, b, a, b with a = {:?}, b = {:?}: equal length, equal {} hash]", f.msg, i + 1, tw.a, tw.b, tw.hash),
+                )
+            })?;
+        }
+    }
+    cc.class("twin-pair");
+    cc.nontrivial(digest_of(&[tw.a.as_bytes(), tw.b.as_bytes()]));
+    cc.sample(json!({"hash": tw.hash, "a": tw.a, "b": tw.b}));
+    Ok(())
 }
 
 #[derive(Clone, Debug, serde::Serialize, serde::Deserialize)]
